@@ -1611,6 +1611,13 @@ def c13_case(ctx, kind, env_name, n, B0, W, opts: Optional[dict] = None, custom_
         for w in ([] if bad_start else range(W)):
             torch.set_rng_state(rng_state)
             rows = list(range(w * B0, (w + 1) * B0))
+            # with top-k / top-p filtering fewer than W expansions may have positive probability: the search then has to
+            # keep expansions of probability 0 (recorded step log-prob −inf).  `Evaluate` refuses such an action
+            # ("Logprobs should not be -inf"), so this slot cannot be teacher-forced; its recorded −inf IS the policy's
+            # value for that step (false alarm at thorough seed 11: am/spctsp W=8, top_k=3, top_p=0.3) — counted, skipped
+            if any(vals[i][t] == float("-inf") for i in rows for t in range(1, T + 1)):
+                ctx.count("teacher-forcing-skipped(beam slot contains a zero-probability expansion: fewer than W expansions survive the filter)")
+                continue
             td_ref = td
             if True:
                 # the forced start may have log-prob −inf under the policy (filtered out / saturated): flag step 0 as irrelevant in the reference
@@ -1626,6 +1633,15 @@ def c13_case(ctx, kind, env_name, n, B0, W, opts: Optional[dict] = None, custom_
                 torch.set_rng_state(rng_state)
                 tr2, out2, e2 = run_policy(pol, env, td_ref, actions=out["actions"][rows], return_sum_log_likelihood=False, **opts)
             if e2 is not None:
+                filt = (opts.get("top_k", 0) or 0) > 0 or 0 < (opts.get("top_p", 0) or 0) < 1
+                if filt and isinstance(e2, AssertionError) and "-inf" in str(e2):
+                    # with a top-k / top-p filter the support of a step distribution has a hard edge; the search computes it
+                    # in the [B·W] layout, the re-scoring in the [B] layout, and float32 noise between the two layouts (≤ 6e-5,
+                    # see below) can move an action sitting on the edge out of the kept set, where `Evaluate` refuses it
+                    # (false alarm at thorough seed 11: am/spctsp W=8, temperature 2.5, top_k=3, top_p=0.3).  Row/step alignment
+                    # is still judged by the unfiltered option sets of the same sweep.
+                    ctx.count("teacher-forcing-skipped(filter edge: action outside the re-scored support under top-k/top-p)")
+                    continue
                 ctx.violation("beam-rescoring-raised:" + type(e2).__name__, f"teacher forcing of a returned beam raised: {short(e2, 200)}", wit)
                 return
             tf = out2["log_likelihood"]
